@@ -1,12 +1,16 @@
-import Cfdm.Lemmas.Select
+import Cfdm.Lemmas.SelectId
 /-
 C18 — construct selection agrees with construct identities and keys.
 Property theorems only; the model and the specification are in `Model/Select.lean`,
 helper lemmas in `Lemmas/Select.lean`.
 
-The model mirrors cfdm *after* the four repairs proposed in `fixes/C18-*.patch`.
-For each repaired defect the behaviour of the unrepaired code is kept (`…Old`) and
-refuted below by a concrete witness (`C18_…_old_counterexample`).
+The model mirrors cfdm at /repo HEAD, where three defects found by this check have
+been repaired (57d098c, 6f196c8, e712ce0: the `…Old` variants and
+`C18_{axis_identity,bytype_prefiltered,inverse_depth}_old_counterexample` keep the code
+before those commits), and as it will be after the patches proposed for the open
+findings (fixes/C18-short-iteration, C18-cell-methods-identities,
+C18-domain-axes-keywords: there `…Old` is HEAD, refuted by
+`C18_{identity,cell_methods,domain_axes_kw}_old_counterexample`).
 -/
 namespace Cfdm.Props.C18
 open Cfdm.Select Cfdm.Select.Examples
@@ -45,7 +49,7 @@ theorem C18_identity_sound_complete (cs : List Construct) (qs : List Q) (c : Con
 example : area ∈ filterByIdentity fld [.str "cell_area"] := by decide
 example : filterByIdentity fld [.str "key%domainaxis1", .pat [(true, "lat")]] = [lat, ax1] := by decide
 
-/-- Unrepaired code (`Container._iter` returns after the very first identity):
+/-- HEAD (`Container._iter` returns after the very first identity; open finding):
 a cell measure that reports the identity `cell_area` is not selected by it, and a
 coordinate is not selected by the standard name that its bounds contribute. -/
 theorem C18_identity_old_counterexample :
@@ -53,6 +57,32 @@ theorem C18_identity_old_counterexample :
       ∧ MatchesIdentity aux [.str "foo"] ∧ aux ∉ filterByIdentityOld fld [.str "foo"] :=
   ⟨fld_wf, by decide, Or.inr ⟨.str "cell_area", by simp, "cell_area", by decide, by decide⟩, by decide,
     Or.inr ⟨.str "foo", by simp, "foo", by decide, by decide⟩, by decide⟩
+
+/-- The same with NO exclusion (`WF0` = `WF` without `noForeignKey`), exactly as the code
+behaves: a member is selected when a value names its key, or — unless EVERY given value
+is the key (or `key%`key) of a member, so that the key pre-pass consumes them all —
+when one of its reported identities matches.  Hence the exclusion only matters for
+calls in which all the values are keys (`C18_foreign_key_identity_counterexample`). -/
+theorem C18_identity_exact (cs : List Construct) (qs : List Q) (c : Construct) (hwf : WF0 cs) :
+    c ∈ filterByIdentity cs qs ↔
+      c ∈ cs ∧ (qs = [] ∨ (∃ q ∈ qs, KeyMatch c q) ∨
+        ((∃ q ∈ qs, ¬ Consumed (cs.map (·.key)) q) ∧ ∃ q ∈ qs, ∃ s ∈ c.identities, q.matches s = true)) :=
+  mem_filterByIdentity_exact hwf
+
+/-- … so with at least one value that is not a key, selection is sound and complete
+even when an identity equals the key of another construct. -/
+theorem C18_identity_sound_complete_not_all_keys (cs : List Construct) (qs : List Q) (c : Construct) (hwf : WF0 cs)
+    (hq : ∃ q ∈ qs, ¬ Consumed (cs.map (·.key)) q) :
+    c ∈ filterByIdentity cs qs ↔ c ∈ cs ∧ MatchesIdentity c qs := by
+  rw [mem_filterByIdentity_exact hwf]
+  have hne : qs ≠ [] := by
+    obtain ⟨q, hq', _⟩ := hq
+    exact List.ne_nil_of_mem hq'
+  simp only [hne, false_or, MatchesIdentity, hq, true_and]
+
+example :
+    let odd := mkC "auxiliarycoordinate1" .auxiliary_coordinate [] ["dimensioncoordinate0"] [] (some ["domainaxis0"])
+    filterByIdentity [lat, odd] [.str "dimensioncoordinate0", .str "zzz"] = [lat, odd] := by decide
 
 /-- The exclusion in `WF` is needed: when an identity of one construct is the key of
 another, the key pre-pass consumes the value and the identity is never looked at
@@ -76,6 +106,7 @@ example : runFilter false ctx ctx.base (.axis .exact [.str "latitude", .int (-1)
 example : runFilter true ctx ctx.base (.property true [("units", some (.pat [(false, "north")])), ("foo", none)]) fld = [lat] := by
   decide
 example : runFilter false ctx ctx.base (.axis .subset [.str "ncdim%lon"]) fld = [lon, aux] := by decide
+example : runFilter false ctx ctx.base (.cell [.str "face", .pat [(true, "ed")]]) (topo :: fld) = [topo] := by decide
 
 /-- Filtering returns a sub-collection (members in their original order, none added);
 in the functional model the source is untouched by construction. -/
@@ -170,7 +201,7 @@ theorem C18_inverse_complement_default (ctx : Ctx) (ops : List Op) (base : List 
 example : (inverseFilter (runOps ctx [.filt [.naxes [1], .type [.dimension_coordinate]]] (Coll.ofBase fld)) (some 1)).items = [aux] := by
   decide
 
-/-- Unrepaired `_filter_by_type` (records `self` as `_prefiltered`): after
+/-- `_filter_by_type` before 6f196c8 (records `self` as `_prefiltered`): after
 `c.filter(filter_by_naxes=(1,), filter_by_type=("dimension_coordinate",))`, `unfilter(1)`
 is not the collection selected by the first filter. -/
 theorem C18_bytype_prefiltered_old_counterexample :
@@ -178,14 +209,14 @@ theorem C18_bytype_prefiltered_old_counterexample :
       ≠ (filterChainOld ctx [.naxes [1]] (Coll.ofBase fld)).items := by
   decide
 
-/-- Unrepaired `inverse_filter(1)` on a collection with no filter applied indexes an
-empty tuple; the repaired one returns the empty complement. -/
+/-- `inverse_filter(1)` before e712ce0 on a collection with no filter applied indexes an
+empty tuple; the repaired one (HEAD) returns the empty complement. -/
 theorem C18_inverse_depth_old_counterexample :
     (match inverseFilterOld (Coll.ofBase fld) (some 1) with | .error e => e | .ok _ => "") = "IndexError"
       ∧ (inverseFilter (Coll.ofBase fld) (some 1)).items = [] := by
   decide
 
-/-- Unrepaired `_filter_convert_to_domain_axis` looks a domain axis identity up among
+/-- `_filter_convert_to_domain_axis` before 57d098c looks a domain axis identity up among
 the members of `self`: on a collection already filtered by type the axis filter
 selects nothing, although the intersection is not empty. -/
 theorem C18_axis_identity_old_counterexample :
@@ -239,33 +270,324 @@ example : accessor ctx [.dimension_coordinate, .auxiliary_coordinate] [.str "lat
   decide
 example : accessor ctx [] [.pat [(false, "l")]] [.naxes [1]] .exc = .raised := by decide
 example : accessor ctx [.cell_measure] [.str "cell_area"] [] .none = .found "cellmeasure0" := by decide
-/-- `f.domain_axes(*identities)` — matched directly or through a 1-d coordinate /
-a position — only ever returns domain axis constructs of the field. -/
-theorem C18_domain_axes_subcollection (ctx : Ctx) (ids : List Q) (x : Construct)
-    (h : x ∈ domainAxes ctx ids) : x ∈ ctx.base ∧ x.ctype = .domain_axis := by
-  have hda : ∀ y, y ∈ byTypeDict [.domain_axis] ctx.base → y ∈ ctx.base ∧ y.ctype = .domain_axis := by
-    intro y hy
-    have := mem_byTypeDict.mp hy
-    exact ⟨this.1, by simpa using this.2⟩
-  simp only [domainAxes, identityReturnMatched] at h
-  split at h
-  · exact hda x h
-  · split at h
-    · rename_i out heq
-      split at heq
-      · cases heq
-        exact hda x (List.mem_filter.mp h).1
-      · cases heq
-    · have hk : ∀ (b : Bool) (L : List Q),
-          x ∈ (if b = true then [] else byKey L (byTypeDict [.domain_axis] ctx.base)) →
-            x ∈ byTypeDict [.domain_axis] ctx.base := by
-        intro b L hx
-        cases b
-        · exact (mem_byKey.mp (by simpa using hx)).1
-        · simp at hx
-      exact hda x (hk _ _ h)
+/-- The plural accessors (`f.coordinates(...)`, `f.cell_measures(...)`, …, also what the
+single-construct accessors choose from) select exactly the constructs of the
+accessor's types that satisfy every keyword filter and match one of the identities. -/
+theorem C18_plural_accessor (ctx : Ctx) (ts : List CType) (ids : List Q) (fs : List Filter) (c : Construct)
+    (hwf : WF ctx.base) :
+    c ∈ accessorAll ctx ts ids fs ↔
+      c ∈ ctx.base ∧ (ts = [] ∨ c.ctype ∈ ts) ∧ (∀ f ∈ fs, Sat ctx f c) ∧ (ids = [] ∨ MatchesIdentity c ids) := by
+  have h := mem_chainItems (dict := true) (ctx := ctx) (fs := accessorFilters ts ids fs) (c := c) hwf
+  rw [show accessorAll ctx ts ids fs = chainItems true ctx (accessorFilters ts ids fs) ctx.base from rfl, h]
+  simp only [accessorFilters, List.mem_append]
+  constructor
+  · rintro ⟨hc, hall⟩
+    refine ⟨hc, ?_, fun f hf => hall f (Or.inl (Or.inr hf)), ?_⟩
+    · by_cases ht : ts = []
+      · exact Or.inl ht
+      · have : ts.isEmpty = false := by cases ts <;> simp_all
+        have := hall (.type ts) (Or.inl (Or.inl (by simp [this])))
+        simpa [Sat] using this
+    · by_cases hi : ids = []
+      · exact Or.inl hi
+      · have : ids.isEmpty = false := by cases ids <;> simp_all
+        have := hall (.identity ids) (Or.inr (by simp [this]))
+        simpa [Sat] using this
+  · rintro ⟨hc, ht, hfs, hi⟩
+    refine ⟨hc, ?_⟩
+    rintro f ((hf | hf) | hf)
+    · split at hf
+      · cases hf
+      · simp only [List.mem_singleton] at hf; subst hf; exact ht
+    · exact hfs f hf
+    · split at hf
+      · cases hf
+      · simp only [List.mem_singleton] at hf; subst hf; exact hi
 
-example : domainAxes ctx [.str "longitude"] = [ax1] := by decide
-example : domainAxes ctx [.int 0, .str "ncdim%lon"] = [ax0, ax1] := by decide
+example : accessorAll ctx [.dimension_coordinate, .auxiliary_coordinate] [.pat [(false, "lon")]] [.naxes [1]] = [lon, aux] := by
+  decide
+
+/-- `f.domain_axis_key(*identity, **filter_kwargs)` returns the key `k` exactly when the
+selected 1-d coordinate constructs span at least one domain axis of the field and
+all of those axes are `k`; otherwise the default, or the stated error. -/
+theorem C18_domain_axis_key (ctx : Ctx) (ids : List Q) (fs : List Filter) (d : Default) (k : String) :
+    domainAxisKey ctx ids fs d = .found k ↔
+      (∃ x ∈ accessorAll ctx [.dimension_coordinate, .auxiliary_coordinate] ids (fs ++ [.naxes [1]]),
+          x.axes.bind List.head? = some k ∧ k ∈ (byTypeDict [.domain_axis] ctx.base).map (·.key)) ∧
+        ∀ x ∈ accessorAll ctx [.dimension_coordinate, .auxiliary_coordinate] ids (fs ++ [.naxes [1]]),
+          ∀ a, x.axes.bind List.head? = some a → a ∈ (byTypeDict [.domain_axis] ctx.base).map (·.key) → a = k := by
+  have hret : ∀ (keys : List String), returnKey keys d = .found k ↔ keys = [k] := by
+    intro keys
+    cases keys with
+    | nil => cases d <;> simp [returnKey]
+    | cons a rest =>
+      cases rest with
+      | nil => simp [returnKey]
+      | cons b rest' => cases d <;> simp [returnKey]
+  simp only [domainAxisKey]
+  rw [hret, eraseDups_singleton]
+  constructor
+  · rintro ⟨hne, hall⟩
+    refine ⟨?_, ?_⟩
+    · obtain ⟨a, ha⟩ := List.exists_mem_of_ne_nil _ hne
+      have hak := hall a ha
+      subst hak
+      obtain ⟨ha1, ha2⟩ := List.mem_filter.mp ha
+      obtain ⟨x, hx, hxa⟩ := List.mem_filterMap.mp ha1
+      exact ⟨x, hx, hxa, List.contains_iff_mem.mp ha2⟩
+    · intro x hx a hxa hda
+      exact hall a (List.mem_filter.mpr ⟨List.mem_filterMap.mpr ⟨x, hx, hxa⟩, List.contains_iff_mem.mpr hda⟩)
+  · rintro ⟨⟨x, hx, hxa, hda⟩, hall⟩
+    refine ⟨List.ne_nil_of_mem (List.mem_filter.mpr ⟨List.mem_filterMap.mpr ⟨x, hx, hxa⟩, List.contains_iff_mem.mpr hda⟩), ?_⟩
+    intro a ha
+    obtain ⟨ha1, ha2⟩ := List.mem_filter.mp ha
+    obtain ⟨y, hy, hya⟩ := List.mem_filterMap.mp ha1
+    exact hall y hy a hya (List.contains_iff_mem.mp ha2)
+
+example : domainAxisKey ctx [.str "longitude"] [] .exc = .found "domainaxis1" := by decide
+example : domainAxisKey ctx [.pat [(false, "l")]] [] .exc = .raised
+    ∧ domainAxisKey ctx [.pat [(false, "lon")], .str "long_name=x"] [] .none = .found "domainaxis1" := by decide
+
+/-! ### several identities in one call -/
+
+/-- The `short` flag of `_filter_by_identity`, computed by the loop with its `break`, is
+the conjunction over ALL the given identities: it does not depend on which identity
+comes first. -/
+theorem C18_short_flag_is_conjunction (qs : List Q) :
+    shortFlag qs = true ↔ ∀ q ∈ qs, q.bare = true := by
+  rw [shortFlag_eq_all, List.all_eq_true]
+
+example : shortFlag [.str "latitude", .str "long_name=x"] = false ∧ shortFlag [.str "long_name=x", .str "latitude"] = false
+    ∧ shortFlag [.str "latitude", .str "cell_area"] = true := by decide
+
+/-- `filter_by_identity(a, b, …)` depends only on the SET of identities given: not on
+their order, not on repetitions — whatever forms are mixed (bare names, `name=value`,
+`ncvar%…`, `key%…`, regular expressions, non-strings), for any collection (no
+well-formedness assumed) and for any identity generator, in particular for HEAD's
+(`Construct.idsForOld`) and for the patched one (`Construct.idsFor`). -/
+theorem C18_identity_order_independent (gen : Bool → Construct → List String) (cs : List Construct)
+    (qs qs' : List Q) (h : ∀ q, q ∈ qs ↔ q ∈ qs') :
+    filterByIdentityWith gen cs qs = filterByIdentityWith gen cs qs' :=
+  filterByIdentityWith_congr gen cs h
+
+theorem C18_identity_perm (cs : List Construct) (qs qs' : List Q) (h : qs.Perm qs') :
+    filterByIdentity cs qs = filterByIdentity cs qs' ∧ filterByIdentityOld cs qs = filterByIdentityOld cs qs' :=
+  ⟨filterByIdentityWith_congr _ cs fun _ => h.mem_iff, filterByIdentityWith_congr _ cs fun _ => h.mem_iff⟩
+
+/-- a construct found only through the second, non-bare identity: both orders -/
+example : filterByIdentity fld [.str "latitude", .str "long_name=x"] = [lat, aux]
+    ∧ filterByIdentity fld [.str "long_name=x", .str "latitude"] = [lat, aux]
+    ∧ filterByIdentityOld fld [.str "units=m2", .pat [(true, "lon")], .str "foo"] = [lon, area, aux] := by decide
+
+/-! ### `inverse_filter(1)` directly after an inverse filter -/
+
+/-- The inverse of an inverse, taken relative to the previous collection
+(`c.inverse_filter(d).inverse_filter(1)`), is the collection `c` itself — members and
+history — whenever `c` was not itself produced by an inverse filter.  (It is also the
+complement of `c.inverse_filter(d)` within `c`'s members, see the example.) -/
+theorem C18_inverse_of_inverse (ctx : Ctx) (ops : List Op) (base : List Construct) (d : Option Nat)
+    (h : (runOps ctx ops (Coll.ofBase base)).applied.getLast? ≠ some true) :
+    inverseFilter (inverseFilter (runOps ctx ops (Coll.ofBase base)) d) (some 1) = runOps ctx ops (Coll.ofBase base) :=
+  inverse_of_inverse_one _ d h
+
+example : (inverseFilter (inverseFilter (runOps ctx [.meth (.type [.dimension_coordinate])] (Coll.ofBase fld)) none) (some 1)).items
+    = [lat, lon] := by decide
+
+/-! ### `domain_axes(*identities, **filter_kwargs)` -/
+
+/-- Soundness: `f.domain_axes(*identities, **filter_kwargs)` only returns domain axis
+constructs of the field that satisfy every keyword filter and that are named by one
+of the values: directly (key or identity), or through `_filter_convert_to_domain_axis`
+(the single axis of the 1-d coordinates with that identity, a position of the data). -/
+theorem C18_domain_axes_sound (ctx : Ctx) (ids : List Q) (fs : List Filter) (x : Construct) (hwf : WF ctx.base)
+    (h : x ∈ domainAxes ctx ids fs) :
+    x ∈ ctx.base ∧ x.ctype = .domain_axis ∧ (∀ f ∈ fs, Sat ctx f x) ∧
+      (ids = [] ∨ MatchesIdentity x ids ∨ ∃ q ∈ ids, resolveAxis ctx ctx.base false q = some x.key) := by
+  obtain ⟨hx, hr⟩ := (mem_domainAxes_exact hwf).mp h
+  obtain ⟨hb, ht, hf⟩ := (mem_scopeOf hwf).mp hx
+  refine ⟨hb, ht, hf, ?_⟩
+  rcases hr with h | h | ⟨q, hq, hres⟩
+  · exact Or.inl h
+  · exact Or.inr (Or.inl h)
+  · exact Or.inr (Or.inr ⟨q, misses_subset hq, hres⟩)
+
+/-- Completeness: a domain axis that satisfies the keyword filters is returned when one
+of the values names it directly, or when a value that names no (eligible) domain axis
+directly resolves to it through a coordinate or a position. -/
+theorem C18_domain_axes_complete (ctx : Ctx) (ids : List Q) (fs : List Filter) (x : Construct) (hwf : WF ctx.base)
+    (hb : x ∈ ctx.base) (ht : x.ctype = .domain_axis) (hf : ∀ f ∈ fs, Sat ctx f x)
+    (h : ids = [] ∨ MatchesIdentity x ids ∨
+      ∃ q ∈ ids, (∀ y ∈ ctx.base, y.ctype = .domain_axis → (∀ f ∈ fs, Sat ctx f y) → ¬ MatchesIdentity y [q]) ∧
+        resolveAxis ctx ctx.base false q = some x.key) :
+    x ∈ domainAxes ctx ids fs := by
+  refine (mem_domainAxes_exact hwf).mpr ⟨(mem_scopeOf hwf).mpr ⟨hb, ht, hf⟩, ?_⟩
+  rcases h with h | h | ⟨q, hq, hno, hres⟩
+  · exact Or.inl h
+  · exact Or.inr (Or.inl h)
+  · refine Or.inr (Or.inr ⟨q, miss_of_no_match hq ?_, hres⟩)
+    intro y hy
+    obtain ⟨hyb, hyt, hyf⟩ := (mem_scopeOf hwf).mp hy
+    exact hno y hyb hyt hyf
+
+/-- With ONE value the two bounds meet: the domain axes it names directly if there are
+any, otherwise the axis it resolves to. -/
+theorem C18_domain_axes_single (ctx : Ctx) (q : Q) (fs : List Filter) (x : Construct) (hwf : WF ctx.base) :
+    x ∈ domainAxes ctx [q] fs ↔
+      x ∈ ctx.base ∧ x.ctype = .domain_axis ∧ (∀ f ∈ fs, Sat ctx f x) ∧
+        (MatchesIdentity x [q] ∨
+          ((∀ y ∈ ctx.base, y.ctype = .domain_axis → (∀ f ∈ fs, Sat ctx f y) → ¬ MatchesIdentity y [q]) ∧
+            resolveAxis ctx ctx.base false q = some x.key)) := by
+  have hwfs : WF (scopeOf ctx .domain_axis fs) := WF.of_sublist scopeOf_sublist hwf
+  constructor
+  · intro h
+    obtain ⟨hx, hr⟩ := (mem_domainAxes_exact hwf).mp h
+    obtain ⟨hb, ht, hf⟩ := (mem_scopeOf hwf).mp hx
+    refine ⟨hb, ht, hf, ?_⟩
+    rcases hr with h | h | ⟨q', hq', hres⟩
+    · cases h
+    · exact Or.inl h
+    · have : q' = q := by simpa using misses_subset hq'
+      subst this
+      refine Or.inr ⟨fun y hyb hyt hyf => ?_, hres⟩
+      exact (single_miss_iff hwfs).mp hq' y ((mem_scopeOf hwf).mpr ⟨hyb, hyt, hyf⟩)
+  · rintro ⟨hb, ht, hf, h⟩
+    refine C18_domain_axes_complete ctx [q] fs x hwf hb ht hf (Or.inr ?_)
+    rcases h with h | ⟨hno, hres⟩
+    · exact Or.inl h
+    · exact Or.inr ⟨q, by simp, hno, hres⟩
+
+example : domainAxes ctx [.str "longitude"] [] = [ax1] := by decide
+example : domainAxes ctx [.int 0, .str "ncdim%lon"] [] = [ax0, ax1] := by decide
+example : domainAxes ctx [.str "latitude", .str "longitude"] [.size [8]] = [ax1] := by decide
+
+example : ax1 ∈ ctx.base ∧ ax1.ctype = .domain_axis :=
+  let h := C18_domain_axes_sound ctx [.str "longitude"] [] ax1 fld_wf (by decide)
+  ⟨h.1, h.2.1⟩
+example : ax0 ∈ domainAxes ctx [.str "zzz", .str "key%domainaxis0"] [.size [5]] :=
+  C18_domain_axes_complete ctx _ _ ax0 fld_wf (by decide) rfl
+    (by intro f hf; simp only [List.mem_singleton] at hf; subst hf; exact ⟨rfl, Or.inr ⟨5, rfl, by simp⟩⟩)
+    (Or.inr (Or.inl (Or.inl ⟨.str "key%domainaxis0", by simp, Or.inr ⟨"key%domainaxis0", rfl, by decide⟩⟩)))
+
+/-- The gap between the two bounds is real, and in it the code depends on the ORDER of
+the values: a pattern that names the `lon` axis directly (`ncdim%lon`) and also stands
+for the `lat` axis (the 1-d coordinate `latitude`) goes through the second route only
+when another value has already claimed the identity `ncdim%lon` (the `break` after the
+first matching value makes the pattern a "miss").  Both results lie between the bounds
+of `C18_domain_axes_sound` / `C18_domain_axes_complete`; the docstring ("additionally")
+allows the larger one, the code's intention the smaller.  Not recorded as a defect. -/
+theorem C18_domain_axes_order_dependence_witness :
+    domainAxes ctx [.str "ncdim%lon", .pat [(false, "ncdim%lon"), (true, "latitude")]] [] = [ax0, ax1]
+      ∧ domainAxes ctx [.pat [(false, "ncdim%lon"), (true, "latitude")], .str "ncdim%lon"] [] = [ax1] := by
+  decide
+
+/-- HEAD (open finding): the axis found through a coordinate is selected by key among
+ALL domain axes, so a keyword filter is ignored —
+`f.domain_axes('latitude', filter_by_size=(99,))` returns the latitude axis of size 5.
+With the proposed patch the result is the intersection. -/
+theorem C18_domain_axes_kw_old_counterexample :
+    domainAxesOld ctx [.str "latitude"] [.size [99]] = [ax0] ∧ ¬ Sat ctx (.size [99]) ax0
+      ∧ domainAxes ctx [.str "latitude"] [.size [99]] = [] := by
+  refine ⟨by decide, ?_, by decide⟩
+  simp only [Sat, List.cons_ne_nil, false_or, not_and, not_exists]
+  intro _ n hn
+  have : n = 5 := by
+    have h5 : ax0.size = some 5 := rfl
+    rw [h5] at hn; exact (Option.some.inj hn).symm
+  subst this
+  decide
+
+/-! ### `Field.cell_methods(*identities, **filter_kwargs)` -/
+
+/-- Soundness (patched code): a returned cell method satisfies the keyword filters and
+either matches one of the values by key / identity, or spans exactly one axis and
+that axis is a domain axis of the field named by one of the values. -/
+theorem C18_cell_methods_sound (ctx : Ctx) (ids : List Q) (fs : List Filter) (x : Construct) (hwf : WF ctx.base)
+    (h : x ∈ cellMethods ctx ids fs) :
+    x ∈ ctx.base ∧ x.ctype = .cell_method ∧ (∀ f ∈ fs, Sat ctx f x) ∧
+      (ids = [] ∨ MatchesIdentity x ids ∨
+        ∃ a, x.cmAxes = some [a] ∧ ∃ d ∈ ctx.base, d.ctype = .domain_axis ∧ d.key = a ∧
+          (MatchesIdentity d ids ∨ ∃ q ∈ ids, resolveAxis ctx ctx.base false q = some a)) := by
+  obtain ⟨hx, hr⟩ := (mem_cellMethods_exact hwf).mp h
+  obtain ⟨hb, ht, hf⟩ := (mem_scopeOf hwf).mp hx
+  refine ⟨hb, ht, hf, ?_⟩
+  rcases hr with h | h | ⟨hne, a, ha, d, hd, hdk⟩
+  · exact Or.inl h
+  · exact Or.inr (Or.inl h)
+  · obtain ⟨hdb, hdt, _, hdr⟩ := C18_domain_axes_sound ctx _ [] d hwf hd
+    refine Or.inr (Or.inr ⟨a, ha, d, hdb, hdt, hdk, ?_⟩)
+    rcases hdr with h | h | ⟨q, hq, hres⟩
+    · exact absurd h hne
+    · exact Or.inl (monoMatches (fun q hq => misses_subset hq) h)
+    · exact Or.inr ⟨q, misses_subset hq, hdk ▸ hres⟩
+
+/-- Completeness (patched code): a cell method that satisfies the keyword filters is
+returned when a value matches it directly, or when it spans exactly one axis named by
+a value that matches no (eligible) cell method. -/
+theorem C18_cell_methods_complete (ctx : Ctx) (ids : List Q) (fs : List Filter) (x : Construct) (hwf : WF ctx.base)
+    (hb : x ∈ ctx.base) (ht : x.ctype = .cell_method) (hf : ∀ f ∈ fs, Sat ctx f x)
+    (h : ids = [] ∨ MatchesIdentity x ids ∨
+      ∃ q ∈ ids, (∀ y ∈ ctx.base, y.ctype = .cell_method → (∀ f ∈ fs, Sat ctx f y) → ¬ MatchesIdentity y [q]) ∧
+        ∃ a, x.cmAxes = some [a] ∧ ∃ d ∈ ctx.base, d.ctype = .domain_axis ∧ d.key = a ∧
+          (MatchesIdentity d [q] ∨
+            ((∀ y ∈ ctx.base, y.ctype = .domain_axis → ¬ MatchesIdentity y [q]) ∧
+              resolveAxis ctx ctx.base false q = some a))) :
+    x ∈ cellMethods ctx ids fs := by
+  refine (mem_cellMethods_exact hwf).mpr ⟨(mem_scopeOf hwf).mpr ⟨hb, ht, hf⟩, ?_⟩
+  rcases h with h | h | ⟨q, hq, hno, a, ha, d, hdb, hdt, hdk, hd⟩
+  · exact Or.inl h
+  · exact Or.inr (Or.inl h)
+  · have hmiss : q ∈ (identityReturnMatched Construct.idsFor (scopeOf ctx .cell_method fs) ids).2.2 := by
+      refine miss_of_no_match hq ?_
+      intro y hy
+      obtain ⟨hyb, hyt, hyf⟩ := (mem_scopeOf hwf).mp hy
+      exact hno y hyb hyt hyf
+    refine Or.inr (Or.inr ⟨List.ne_nil_of_mem hmiss, a, ha, d, ?_, hdk⟩)
+    refine C18_domain_axes_complete ctx _ [] d hwf hdb hdt (by simp) (Or.inr ?_)
+    rcases hd with hd | ⟨hnd, hres⟩
+    · exact Or.inl (matches_single.mpr ⟨q, hmiss, hd⟩)
+    · exact Or.inr ⟨q, hmiss, fun y hyb hyt _ => hnd y hyb hyt, hdk ▸ hres⟩
+
+example : cellMethods ctx2 [.str "method:mean"] [] = [cm0] := by decide
+example : cellMethods ctx2 [.str "longitude"] [] = [cm1] := by decide
+example : cellMethods ctx2 [.str "cellmethod0", .int 1] [.method [.str "maximum", .str "mean"]] = [cm0, cm1] := by decide
+
+example : cm1.ctype = .cell_method :=
+  (C18_cell_methods_sound ctx2 [.str "longitude"] [] cm1 fld2_wf (by decide)).2.1
+example : cm0 ∈ cellMethods ctx2 [.str "method:mean", .str "zzz"] [] :=
+  C18_cell_methods_complete ctx2 _ _ cm0 fld2_wf (by decide) rfl (by simp)
+    (Or.inr (Or.inl (Or.inr ⟨.str "method:mean", by simp, "method:mean", by decide, by decide⟩)))
+
+/-- HEAD (open findings): (1) a value that matches nothing leaves no key, and
+`filter_by_key()` with no key selects EVERY cell method — `f.cell_methods('nonexistent')`
+returns all of them, `f.cell_method('nonexistent')` the only one; (2) a cell method
+found through its axis is selected among ALL cell methods, ignoring the keyword
+filters — `f.cell_methods('longitude', filter_by_method=('mean',))` returns the
+`maximum` cell method.  With the proposed patch both are empty. -/
+theorem C18_cell_methods_old_counterexample :
+    cellMethodsOld ctx2 [.str "nonexistent"] [] = [cm0, cm1] ∧ cellMethods ctx2 [.str "nonexistent"] [] = []
+      ∧ cellMethodsOld ctx2 [.str "longitude"] [.method [.str "mean"]] = [cm1]
+      ∧ cellMethods ctx2 [.str "longitude"] [.method [.str "mean"]] = []
+      ∧ ¬ MatchesIdentity cm0 [.str "nonexistent"] := by
+  refine ⟨by decide, by decide, by decide, by decide, ?_⟩
+  rintro (⟨q, hq, hk⟩ | ⟨q, hq, s, hs, hm⟩)
+  · simp only [List.mem_singleton] at hq; subst hq
+    rcases hk with hk | ⟨s, hs, hk⟩
+    · exact absurd hk (by decide)
+    · cases hs; exact absurd hk (by decide)
+  · simp only [List.mem_singleton] at hq; subst hq
+    have : s = "method:mean" := by simpa [cm0, mkC, Construct.identities] using hs
+    subst this
+    exact absurd hm (by decide)
+
+/-! ### numeric property values -/
+
+/-- A numeric property is selected only by the same number with the same data type
+(`valid_max=90` stored as a Python / int64 integer is matched by `90`, not by `90.0`,
+not by `'90'`, not by a pattern). -/
+example : byProperty false [("valid_max", some (.int 90))] fld = [lat]
+    ∧ byProperty false [("valid_max", some (.num "float64" true [360]))] fld = []
+    ∧ byProperty false [("valid_max", some (.str "90"))] fld = []
+    ∧ byProperty false [("valid_max", some (.pat [(false, "9")]))] fld = []
+    ∧ byProperty true [("valid_max", some (.str "90")), ("units", some (.pat [(true, "degrees")]))] fld = [lat] := by decide
 
 end Cfdm.Props.C18
